@@ -142,6 +142,20 @@ type os_stdout struct{}
 
 func (os_stdout) Write(b []byte) (int, error) { fmt.Print(string(b)); return len(b), nil }
 
+// lookupOf: the map lookup a value comes from — m[k] itself or the value of v, ok := m[k].
+func lookupOf(h *an.Term) *an.Term {
+	if h == nil {
+		return nil
+	}
+	if h.Op == "lookup" {
+		return h
+	}
+	if h.Op == "extract" && h.Aux == "0" && len(h.Args) == 1 && h.Args[0].Op == "lookup" {
+		return h.Args[0]
+	}
+	return nil
+}
+
 // ---- string composition, normalised ----
 
 // strPart is a literal piece or a formatted operand of a composed string.
